@@ -16,7 +16,7 @@ MODEL_QUALID = "Model.Fallback.run_script"
 FORMAT = ("[strategy 0..5 (value,value_fn,from_error,from_request_error,service,exception); pred_mode: bits0-1 0=none "
           "1=even-errors 2=all 3=none-accepted, +4: the builder calls handle() BEFORE the strategy setter, +8 name() first, "
           "+16 on_event() between the setters, +32 name()+on_event() last, +64 decoy strategy setter first, +128 convenience "
-          "constructor of layer.rs (only without predicate); value; req; inner_kind 0=ok 1=err; inner_val; backup_kind; "
+          "constructor of layer.rs (only without predicate), +256 decoy handle(negated predicate) before the real handle(); value; req; inner_kind 0=ok 1=err; inner_val; backup_kind; "
           "backup_val] ++ (op,a,b)*: 1 CALL (a 0 service/1 clone/2 fresh clone, b request), 2 POLL call a, 3 INNER_DONE "
           "(call a, outcome b), 4 BACKUP_DONE (call a, outcome b), 5 DROP call a, 6 READY_FAIL (handle a, error b); outcome "
           "b mod 4: 0 Ok(b div 4) 1 Err(b div 4) 2,3 panic; no ops = CALL req; POLL; INNER_DONE; POLL; BACKUP_DONE; POLL with the "
@@ -24,7 +24,7 @@ FORMAT = ("[strategy 0..5 (value,value_fn,from_error,from_request_error,service,
           "payload)*; n_ready; (kind,payload)*; n_ops; effect flag*; n_events; (call, kind 0=inner(req) 1=predicate(e) 2=value_fn "
           "3=from_error(e) 4=from_request_error(req,e) 5=backup(req) 6=exception(e), a, b)*]")
 RULE = ("full grid strategies x predicates x builder order x inner/backup outcomes x payloads (finite, enumerated completely); "
-        "builder routes (name(), on_event(), overridden strategy setter, convenience constructors); random payloads; random "
+        "builder routes (name(), on_event(), overridden strategy setter, overridden handle(), convenience constructors); random payloads; random "
         "op scripts: 1-4 overlapping calls with distinct requests through the service / a clone / fresh clones, inner and "
         "backup answers (ok, error, panic) delivered in random order between hand polls, futures dropped half-way, "
         "duplicate / misdirected operations, readiness errors; thorough: every op sequence of length <= 4 over an 8-letter "
@@ -55,7 +55,7 @@ def corpus():
     ]
 
 
-ROUTES_QUICK = [1, 2, 4, 8, 16, 3, 12, 21, 31]
+ROUTES_QUICK = [1, 2, 4, 8, 16, 3, 12, 21, 31, 32, 33, 40, 46, 63]
 
 
 def generate(rng, tier):
@@ -67,7 +67,7 @@ def generate(rng, tier):
                     for bk in (0, 1):
                         for req in (0, 5):
                             out.append([st, pm, 9, req, ik, iv, bk, 77])
-    routes = ROUTES_QUICK if tier == "quick" else range(1, 32)
+    routes = ROUTES_QUICK if tier == "quick" else range(1, 64)
     for st in range(6):
         for pm in range(8):
             for route in routes:
@@ -76,7 +76,7 @@ def generate(rng, tier):
                 out.append([st, pm + 8 * route, 9, 5, 0, 6, 0, 77])
     n = 200 if tier == "quick" else 5000
     for _ in range(n):
-        out.append([rng.randrange(6), rng.randrange(8) + 8 * rng.choice([0, 0, rng.randrange(32)]), rng.randrange(-50, 50),
+        out.append([rng.randrange(6), rng.randrange(8) + 8 * rng.choice([0, 0, rng.randrange(64)]), rng.randrange(-50, 50),
                     rng.randrange(-100, 100), rng.randrange(2), rng.randrange(-1000, 1000), rng.randrange(2),
                     rng.randrange(-1000, 1000)])
     for _ in range(1500 if tier == "quick" else 40000):
@@ -92,7 +92,7 @@ def enc(kind, val=0):
 
 def rand_ops_script(rng):
     st = rng.randrange(6)
-    pm = rng.randrange(8) + 8 * rng.choice([0, 0, 0, rng.randrange(32)])
+    pm = rng.randrange(8) + 8 * rng.choice([0, 0, rng.randrange(64)])
     nc = rng.randrange(1, 5)
     reqs = rng.sample(range(0, 21), nc)
     plans = []
@@ -212,6 +212,21 @@ def monitor(s, t):
             ready_errs.append(b)
     if len(reqs) != len(calls):
         return "%d calls made, %d results" % (len(reqs), len(calls))
+    # completion ("ALWAYS passes through", "the produced response"): which calls were polled (effectively: the future
+    # was alive) after their inner answer — and, for the Service strategy, again after the backup's answer
+    polled_after_inner, polled_after_backup, seen_in, seen_bk = set(), set(), set(), set()
+    for (o, a, b), f in zip(ops, flags):
+        if not f:
+            continue
+        if o == 3:
+            seen_in.add(a)
+        elif o == 4:
+            seen_bk.add(a)
+        elif o == 2:
+            if a in seen_bk and a in polled_after_inner:
+                polled_after_backup.add(a)
+            elif a in seen_in:
+                polled_after_inner.add(a)
     # events tagged -1 (a closure invoked outside any call() / poll of a call's future) cannot be attributed to a
     # call: they are left to the trace comparison
     for k, ((kind, payload), req) in enumerate(zip(calls, reqs)):
@@ -225,6 +240,15 @@ def monitor(s, t):
             return "call %d: the fallback (event %s) was triggered although the inner service did not fail (%s)" % (
                 k, fb_evs[0][1:], "no answer yet" if io is None else "answer %s" % (io,))
         if kind not in (0, 1, 2):
+            # no result: fine unless the inner service answered and the future was polled after that (and, where the
+            # strategy calls the backup service, was polled again after the backup's answer)
+            if io is not None and io[0] in (0, 1) and k in polled_after_inner:
+                needs_backup = io[0] == 1 and handled_fn(io[1]) and st == 4
+                bo = backup_out.get(k)
+                if not needs_backup or (bo is not None and bo[0] in (0, 1) and k in polled_after_backup):
+                    what = {3: "panicked", 4: "was still unfinished when it was dropped", 5: "is unfinished"}.get(kind, "has kind %d" % kind)
+                    return "call %d: the inner service answered %s and the future was polled afterwards, but the call %s" % (
+                        k, io, what)
             continue
         if io is None or len(inner_evs) != 1:
             return "call %d completed without an answer of the inner service" % k
@@ -280,6 +304,8 @@ def classify(s, t):
         for bit, name in ((1, "name_first"), (2, "on_event_between"), (4, "name_on_event_last"), (8, "strategy_overridden")):
             if route & bit and not (route & 16 and s[1] % 4 == 0):
                 out.append(name)
+        if route & 32 and s[1] % 4 != 0:
+            out.append("handle_overridden")
     ops = ops_of(s)
     out.append("ops_script" if len(s) > 8 else "single_call")
     d = decode(t)
